@@ -105,3 +105,80 @@ Example C07_nonvacuous :
   y_run [ETransition 1 (mkG 1 3 [0; 1; 2] 0); ETick 1 None; EPart 1 0 1001000; EPart 2 1 1002000; EPart 2 1 1002001]
   = [[]; [OEmit 1 0 1000 1000]; [OPut (mkB 1 0 1)]; [OReject]; []].
 Proof. vm_compute. reflexivity. Qed.
+
+(* ---------- system level, over the composed model Model/Net.v (see Props/C04.v for the model) ----------
+   Resharing in the composed system: any honest node may at any time be handed a new group of
+   another sharing (ETransition: own threshold, own adversarial indices, fewer than that
+   threshold), and switches when a round at or beyond the target is stored.  In every reachable
+   state every honest chain is still ONE valid chain from the ONE genesis (gap-free, linked,
+   every beacon verifying under the unchanged group key) -- and by C02_system_agree all honest
+   chains agree, whichever nodes have switched and whichever have not; by C03_system_threshold
+   every beacon was contributed by a threshold of ONE sharing, never a mix of two epochs. *)
+From Coq Require Import ZArith List Bool Lia.
+From DV Require Import Model.Time Model.Node Model.Net Proofs.TimeProofs Proofs.NodeProofs Proofs.NetProofs Gen.Consts.
+Import ListNotations.
+Open Scope Z_scope.
+Section C07_system.
+  Variable C : cfg.
+  Variable idx_of : Z -> Z.
+  Variable vpart : Z -> Z -> Z -> Z -> bool.
+  Variable recov : Z -> Z -> Z -> list Z -> Z -> option Z.
+  Variable vrec : Z -> Z -> Z -> bool.
+  Variable own_of : Z -> Z -> Z -> Z -> Z.
+  Hypothesis vrec_unchained : c_chained C = false -> forall r p p' s, vrec r p s = vrec r p' s.
+  Hypothesis recov_sound : forall P r p sigs t s, recov P r p sigs t = Some s ->
+    exists I, incl I sigs /\ NoDup (map idx_of I) /\ t <= Z.of_nat (length I) /\
+              forall x, In x I -> vpart P r p x = true.
+  Hypothesis Hp : dom_p (c_period C).
+  Hypothesis Hg : dom_g (c_genesis C).
+  Variable thr_of : Z -> Z.
+  Variable F_of : Z -> list Z.
+  Hypothesis F_small : forall P, Z.of_nat (length (F_of P)) < thr_of P.
+  Variable gen : beacon.
+  Hypothesis gen_round : b_round gen = 0.
+
+  Theorem C07_system_continuity : forall y0 gs,
+    sys_inv C idx_of vpart vrec thr_of F_of gen y0 ->
+    gadm_run C idx_of vpart recov vrec own_of thr_of F_of y0 gs ->
+    let y := grun C idx_of vpart recov vrec own_of y0 gs in
+    forall s, In s (y_nodes y) ->
+      chain_ok C vrec (s_chain s) /\ genesis_of (s_chain s) = gen /\ grp_ok thr_of s.
+  Proof.
+    exact (run_continuity C idx_of vpart recov vrec own_of vrec_unchained recov_sound Hp Hg thr_of F_of F_small gen gen_round).
+  Qed.
+End C07_system.
+Print Assumptions C07_system_continuity.
+
+(* non-vacuity: a (4,3) group reshared to a (3,2) group of another sharing (poly 1); the nodes are
+   handed the new group before round 1 is stored, switch when it is, and round 2 is produced with
+   the NEW threshold (own partial + one other) -- an admissible run of the system model *)
+Definition c7_C := mkCfg true 4 1000 2 partial_cache_store_limit.
+Definition c7_idx (sg : Z) := sg / 100.
+Definition c7_vpart (_ r p sg : Z) := (sg mod 100 =? r) && (p =? r - 1).
+Definition c7_recov (_ r p : Z) (sigs : list Z) (t : Z) :=
+  if t <=? Z.of_nat (length (nodup Z.eq_dec (map c7_idx (filter (fun sg => sg mod 100 =? r) sigs)))) then Some r else None.
+Definition c7_vrec (r p s : Z) := (s =? r) && (p =? r - 1).
+Definition c7_own (me _ r _ : Z) := me * 100 + r.
+Definition c7_thr (P : Z) := if P =? 0 then 3 else 2.
+Definition c7_init := init_sys (mkB 0 (-1) 0) 1000 [mkG 0 3 [0; 1; 2; 3] 0; mkG 0 3 [0; 1; 2; 3] 1; mkG 0 3 [0; 1; 2; 3] 2].
+Definition c7_events : list gevent :=
+  [GNode 0 (ETransition 1 (mkG 1 2 [0; 1; 2] 0)); GNode 1 (ETransition 1 (mkG 1 2 [0; 1; 2] 1));
+   GNode 2 (ETransition 1 (mkG 1 2 [0; 1; 2] 2));
+   GNode 0 (ETick 1 None); GNode 1 (ETick 1 None); GNode 2 (ETick 1 None);
+   GDeliver 0 (1, 0, 101); GDeliver 0 (1, 0, 201); GDeliver 1 (1, 0, 1); GDeliver 1 (1, 0, 201);
+   GDeliver 2 (1, 0, 1); GDeliver 2 (1, 0, 101);
+   GClock 4; GNode 0 (ETick 2 None); GNode 1 (ETick 2 None); GNode 2 (ETick 2 None);
+   GDeliver 0 (2, 1, 102); GDeliver 1 (2, 1, 2); GDeliver 2 (2, 1, 2)].
+Example C07_system_nonvacuous :
+  gadm_run c7_C c7_idx c7_vpart c7_recov c7_vrec c7_own c7_thr (fun _ => [3]) c7_init c7_events /\
+  map (fun s => (b_round (head s), g_poly (s_grp s)))
+      (y_nodes (grun c7_C c7_idx c7_vpart c7_recov c7_vrec c7_own c7_init c7_events)) = [(2, 1); (2, 1); (2, 1)].
+Proof.
+  split; [|vm_compute; reflexivity].
+  unfold c7_events, gadm_run, gadm, ev_ok, stream_ok, okgrp.
+  repeat match goal with
+  | |- _ /\ _ => split
+  | |- forall bs, None = Some bs -> _ => intros ? Hx; discriminate Hx
+  | |- True => exact I
+  end; try (vm_compute; tauto); try (vm_compute; intuition congruence).
+Qed.
